@@ -397,6 +397,11 @@ class LinkSlots:
 
     def transfer(self, n, st):
         k = n.kind
+        if k == "ParamBind" and n.d.get("init") is not None and (n.d.get("t") or "").rstrip().endswith("*"):
+            # the pointer parameter of a folded helper or closure is a fresh variable on every call: what was known about
+            # the node it named in the previous call (a rewritten link) does not describe the node it names now
+            st = frozenset(f for f in st if not self.mentions(f, n.d["d"]))
+            return [self.assign(st, n.d["d"], self.fn.node(n.d["init"]))]
         if k == "DeclStmt":
             for d in n.get("decls", []):
                 if "init" in d:
@@ -632,3 +637,73 @@ def check_end_sentinel(ctx, unit, rule="K.end-sentinel-agrees"):
                 ok = len(vals) == 1 and vals[0] in compared
                 why = "stops where bucket meets %s" % " / ".join(sorted(set(compared)))
             ctx.inst(rule, "%s: exhausted" % f.sig, ok, f.loc, "%s; past-the-end is bucket %s" % (why, " / ".join(vals)), f)
+
+
+def check_begin_total(ctx, unit, rule="E.begin-total"):
+    """begin() scans the buckets for the first chain and treats running out of buckets as corruption.  That verdict is only
+    justified when the map HAS an entry: every trap / unreachable mark in begin() is under the decision `_size != 0`.  (A map
+    that was filled and drained has a table and no entry; `_capacity != 0` says nothing about entries.)"""
+    ctx.rule(rule, "hash_map::begin(): the 'no chain found' trap is reached only under _size != 0; an empty map, with or without "
+             "a table, gets the past-the-end position", 1)
+    for rec in recs_of(unit, MAP):
+        fs = [f for f in cls_fns(unit, rec["qn"]) if f.name == "begin" and f.blocks]
+        if not fs:
+            raise AnalysisBroken("anchor vanished: hash_map::begin")
+        for f in fs:
+            traps = [n for n in f.events() if n.is_call() and n.callee and n.callee["n"] in ("frg_panic", "__builtin_trap", "__builtin_unreachable")]
+            bad = []
+            for n in traps:
+                ok = False
+                for c, t in flow.facts_at(f, n.id):
+                    x = c.strip()
+                    pc = path(x)
+                    if pc and pc[-1] == "_size" and t:
+                        ok = True
+                    rel = flow.fact_relation(c, t)
+                    if rel and rel[1] in ("!=", "<") and any((path(s_) or ("",))[-1] == "_size" for s_ in (rel[0], rel[2])) and \
+                            any(std_unwrap(s_).cv() == 0 for s_ in (rel[0], rel[2])):
+                        ok = True
+                if not ok:
+                    bad.append(n.loc)
+            ctx.inst(rule, "%s::begin%s" % (rec["qn"], " const" if f.get("const") else ""), not bad, f.loc,
+                     "the trap at %s can be reached with _size == 0 (a drained map): begin() of an empty map must be end()" % bad[0].split("/")[-1] if bad else
+                     "%d trap sites, all under _size != 0" % len(traps), f)
+
+
+def check_key_before_move(ctx, unit, rule="R.key-read-before-value-moved"):
+    """insert(const Key &key, Value &&value): the key may be part of the value (`m.insert(rec.name, std::move(rec))`).  Once
+    `value` has been moved from, `key` may name a moved-from object: nothing reads the by-reference key after the statement
+    that consumes std::move(value) -- the bucket is computed, and the table grown, before the node is constructed."""
+    ctx.rule(rule, "hash_map::insert(key, Value &&): the by-reference key is not read (hashed, compared) after the statement that "
+             "moves from value", 1)
+    n_inst = 0
+    for rec in recs_of(unit, MAP):
+        for f in [g for g in cls_fns(unit, rec["qn"]) if g.name == "insert" and g.blocks]:
+            ps = f.params()
+            rv = [p for p in ps if (p.get("t") or "").rstrip().endswith("&&")]
+            kr = [p for p in ps if (p.get("t") or "").rstrip().endswith("&") and not (p.get("t") or "").rstrip().endswith("&&")]
+            if not rv or not kr:
+                continue
+            n_inst += 1
+            vd, kd = rv[0]["d"], kr[0]["d"]
+            movers = []
+            for n in f.events():
+                if n.is_call() and n.callee and n.callee.get("uq") in ("std::move", "std::forward") and n.args and \
+                        std_unwrap(n.args[0]).kind == "DeclRefExpr" and std_unwrap(n.args[0]).d.get("d") == vd:
+                    # the consuming statement: the outermost call this std::move is an argument of
+                    top = n
+                    p_ = f.parent(top)
+                    while p_ is not None and (p_.is_call() or p_.kind in ("ImplicitCastExpr", "MaterializeTemporaryExpr", "CXXConstructExpr", "ExprWithCleanups")):
+                        top, p_ = p_, f.parent(p_)
+                    movers.append(top)
+            bad = []
+            for m in movers:
+                inside = {y.id for y in m.walk()} | {m.id}
+                for x in f.events():
+                    if x.kind == "DeclRefExpr" and x.d.get("d") == kd and x.id not in inside and m.id in f.positions() and x.id in f.positions() \
+                            and f.reaches(m.id, x.id):
+                        bad.append("key is read at %s after value was moved from at %s" % (x.loc.split("/")[-1], m.loc.split("/")[-1]))
+            ctx.inst(rule, f.sig, not bad and bool(movers), f.loc, "; ".join(sorted(set(bad))[:2]) if bad else
+                     "%d consuming statement(s), no read of the key after any" % len(movers), f)
+    if not n_inst:
+        raise AnalysisBroken("anchor vanished: hash_map::insert(const Key &, Value &&)")
